@@ -121,6 +121,49 @@ def run_query(q):
         a = expr(q["e"], cls, flt) if "e" in q else mk_wfsa(q["m"], cls, flt)
         g = a.to_cfg(recursion=q.get("recursion", "right"))
         return [enc(g(s2py(xs))) for xs in q["xs"]]
+    if op == "to_bytes_call":
+        tabl = q["symtab"]
+        a = FieldWFSA(Float)
+        m = q["m"]
+        for qq, w in m["init"]:
+            a.add_I(qq, conv(w, flt))
+        for qq, w in m["final"]:
+            a.add_F(qq, conv(w, flt))
+        for i, s_, j, w in m["arcs"]:
+            a.add_arc(i, EPSILON if s_ is None else tabl[s_], j, conv(w, flt))
+        b = a.to_bytes()
+        return [enc(b(tuple(bs))) for bs in q["bss"]]
+    if op == "cfg_to_bytes_call":
+        from genlm.grammar import CFG
+
+        tabl = q["symtab"]
+        g = q["g"]
+        cfg = CFG(Float, "N%d" % g["S"], {tabl[a] for a in range(g["nT"])})
+        for w, h, body in g["rules"]:
+            cfg.add(conv(w, flt), "N%d" % h, *[(tabl[v] if k == "T" else "N%d" % v) for k, v in body])
+        b = cfg.to_bytes()
+        return [enc(b(tuple(bs))) for bs in q["bss"]]
+    if op == "bytes_merge":
+        # two automata over multi-byte symbols, converted to byte level and to grammars, merged into  S -> S1 S2
+        from genlm.grammar import CFG
+
+        tabl = q["symtab"]
+        parts = []
+        for tag, m in (("A", q["m1"]), ("B", q["m2"])):
+            a = FieldWFSA(Float)
+            for qq, w in m["init"]:
+                a.add_I((tag, qq), conv(w, flt))
+            for qq, w in m["final"]:
+                a.add_F((tag, qq), conv(w, flt))
+            for i, s_, j, w in m["arcs"]:
+                a.add_arc((tag, i), EPSILON if s_ is None else tabl[s_], (tag, j), conv(w, flt))
+            parts.append(a.to_bytes().to_cfg(S="S" + tag, recursion=q.get("recursion", "right")))
+        G = CFG(Float, "S", set(parts[0].V) | set(parts[1].V))
+        G.add(1, "S", "SA", "SB")
+        for p_ in parts:
+            for r in p_.rules:
+                G.add(r.w, r.head, *r.body)
+        return [enc(G(tuple(bs))) for bs in q["bss"]]
     if op == "closure":
         from genlm.grammar.linear import WeightedGraph
 
